@@ -428,12 +428,7 @@ func (i *interpreter) index(idx value, t types.Type, n int) int {
 			w = sv.t.w
 		}
 		// out of range?
-		var oob *Term
-		if signed {
-			oob = mkOr(mkCmp("bvslt", sv.t, mkConst(w, 0)), mkNot(mkCmp("bvslt", sv.t, mkConst(w, uint64(n)))))
-		} else {
-			oob = mkNot(mkCmp("bvult", sv.t, mkConst(w, uint64(n))))
-		}
+		oob := oobTerm(sv.t, w, signed, n)
 		if i.decide(oob) {
 			panic(runtimePanic{fmt.Sprintf("index out of range [symbolic] with length %d", n)})
 		}
@@ -460,12 +455,7 @@ func (i *interpreter) symIndexStr(s value, sv *SV, t types.Type) value {
 	if w == 0 {
 		w = sv.t.w
 	}
-	var oob *Term
-	if signed {
-		oob = mkOr(mkCmp("bvslt", sv.t, mkConst(w, 0)), mkNot(mkCmp("bvslt", sv.t, mkConst(w, uint64(n)))))
-	} else {
-		oob = mkNot(mkCmp("bvult", sv.t, mkConst(w, uint64(n))))
-	}
+	oob := oobTerm(sv.t, w, signed, n)
 	if i.decide(oob) {
 		panic(runtimePanic{fmt.Sprintf("index out of range [symbolic] with length %d", n)})
 	}
@@ -799,4 +789,23 @@ func (i *interpreter) loadBytes(T types.Type, addr *value) (value, bool) {
 		}
 	}
 	return svOrConst(t, k), true
+}
+
+// oobTerm: idx is outside [0,n) for an index of width w.
+func oobTerm(t *Term, w int, signed bool, n int) *Term {
+	maxv := uint64(1)<<uint(w) - 1
+	if w >= 64 {
+		maxv = ^uint64(0)
+	}
+	if signed {
+		neg := mkCmp("bvslt", t, mkConst(w, 0))
+		if w < 64 && uint64(n) > maxv>>1 {
+			return neg // every non-negative value of this width is below n
+		}
+		return mkOr(neg, mkNot(mkCmp("bvslt", t, mkConst(w, uint64(n)))))
+	}
+	if w < 64 && uint64(n) > maxv {
+		return tFalse
+	}
+	return mkNot(mkCmp("bvult", t, mkConst(w, uint64(n))))
 }
